@@ -251,6 +251,17 @@ def roundtrip(sh, v, d):
 		if not (loaded == ref):
 			sh.violation('equality', case, True, False)
 			return
+		# what a caller does to an array it was handed must not change what the file-backed collection returns next (the file is unchanged)
+		for i in range(n):
+			a = loaded[i]
+			if isinstance(a, np.ndarray) and a.flags.writeable and len(a):
+				a[...] = a[::-1].copy() + 1
+				for how, again in (('int', lambda: loaded[i]), ('list', lambda: loaded[[i]][0]), ('slice', lambda: loaded[i:i + 1][0])):
+					sh.evals += 1
+					b = np.asarray(again())
+					if b.tolist() != arrs[i].tolist():
+						sh.violation('index', dict(case, index=f'{i} read again ({how}) after the caller modified the array returned by the first read'), arrs[i].tolist(), b.tolist())
+						return
 	finally:
 		loaded.close()
 	nd = sum(1 for name in DIMS if v[name] != DIMS[name][0])
